@@ -69,9 +69,10 @@ let config_of (sc : scen) : config =
      pool mutex     = the mutex that is not m0
      cv "jobs"      = the cv notified right after the lock of an enqueue() (ENQ note, L, notify), else the cv a worker thread
                       (id 1..W) waits on, else the cv notified right after a store (terminate()/destructor);  cv "finished" = the other
-     terminate_     = the atomic that is stored to;  idle_ = incremented just before a wait-begin (or loaded by idle()/has_idle());
-     busy_          = incremented just before the unlock / job start;  done_ = the remaining incremented atomic (or loaded by done())
-   Canonical names afterwards: m0 pool mutex, c0 jobs, c1 finished, a0 busy_, a1 idle_, a2 done_, a3 terminate_, m1 / c2 harness. *)
+     The atomics are NOT given roles here: which counter an access touches is resolved by the matcher against the pending model step of
+     the thread (an access that is not the thread's next model step is an internal step and is skipped); no verdict about the property
+     is ever derived from an atomic access of the trace -- counters are observed through the public API (done(), idle(), size()) only.
+   Canonical names afterwards: m0 pool mutex, c0 jobs, c1 finished, m1 / c2 harness. *)
 let normalise (sc : scen) (raw : string array) : string array =
   let n = Array.length raw in
   let parts = Array.map (split ':') raw in
@@ -83,8 +84,8 @@ let normalise (sc : scen) (raw : string array) : string array =
     (match Hashtbl.find_opt last t with Some j -> prev_same.(i) <- j; next_same.(j) <- i | None -> ());
     Hashtbl.replace last t i
   done;
-  let is_atomic i = match parts.(i) with _ :: ("AL" | "AS" | "AR" | "AC") :: _ -> true | _ -> false in
-  let rec next_visible i = let j = next_same.(i) in if j < 0 then -1 else if is_atomic j then next_visible j else j in
+
+
   let kind i = if i < 0 then [] else (match parts.(i) with _ :: r -> r | [] -> []) in
   let poolm = ref "" in
   Array.iter (function _ :: ("L" | "U") :: m :: _ when m <> "m0" && !poolm = "" -> poolm := m | _ -> ()) parts;
@@ -108,49 +109,12 @@ let normalise (sc : scen) (raw : string array) : string array =
   let other c = match List.filter (fun x -> x <> c) !cvs with [x] -> x | _ -> "" in
   let cj = if !r3 <> "" then !r3 else if !r1 <> "" then !r1 else if !r6 <> "" then !r6 else if !r2 <> "" then other !r2 else "" in
   let cf = if cj <> "" then other cj else !r2 in
-  (* atomics *)
-  let role = Hashtbl.create 8 in
-  let set a r = if not (Hashtbl.mem role a) && not (Hashtbl.fold (fun _ v acc -> acc || v = r) role false) then Hashtbl.replace role a r in
-  let atoms = ref [] in
-  Array.iter (function _ :: ("AL" | "AS" | "AR") :: a :: _ -> if not (List.mem a !atoms) then atoms := !atoms @ [a] | _ -> ()) parts;
-  Array.iter (function _ :: "AS" :: a :: _ -> set a "a3" | _ -> ()) parts;
-  for i = 0 to n - 1 do
-    (match kind i with
-     | ["AR"; a; o; nn] when (try int_of_string nn = int_of_string o + 1 with _ -> false) ->
-       (match kind (next_visible i) with
-        | "WB" :: _ -> set a "a1"
-        | "U" :: _ | "US" :: "JS" :: _ -> set a "a0"
-        | _ -> ())
-     | ["AL"; a; _] ->
-       (match kind next_same.(i) with
-        | "US" :: ("IDLE" | "HAS") :: _ -> set a "a1"
-        | "US" :: "DONE" :: _ -> set a "a2"
-        | _ -> ())
-     | _ -> ())
-  done;
-  (* done_: an incremented atomic that is neither busy_ nor idle_ *)
-  Array.iter (function [_; "AR"; a; o; nn] when (try int_of_string nn = int_of_string o + 1 with _ -> false) -> if not (Hashtbl.mem role a) then set a "a2" | _ -> ()) parts;
-  (* fallbacks from the predicates of the waiters: loop_until_empty loads busy_, loop_until_terminate loads terminate_ then busy_ *)
-  for i = 0 to n - 1 do
-    (match kind i with
-     | ["AL"; a; _] when not (Hashtbl.mem role a) ->
-       let p1 = prev_same.(i) in let p2 = if p1 >= 0 then prev_same.(p1) else -1 in
-       (match kind p1, kind p2 with
-        | "L" :: _, "US" :: "LE" :: _ -> set a "a0"
-        | "L" :: _, "US" :: "LT" :: _ -> set a "a3"
-        | "AL" :: _, "L" :: _ when (let p3 = if p2 >= 0 then prev_same.(p2) else -1 in (match kind p3 with "US" :: "LT" :: _ -> true | _ -> false)) -> set a "a0"
-        | _ -> ())
-     | _ -> ())
-  done;
-  List.iter (fun a -> if not (Hashtbl.mem role a) then set a "a3") !atoms;     (* only loaded, never stored in this (truncated) run *)
   let ren_m m = if m = "m0" then "m1" else if m = !poolm then "m0" else "m?" ^ m in
   let ren_c c = if c = "c0" then "c2" else if c = cj then "c0" else if c = cf then "c1" else "c?" ^ c in
-  let ren_a a = match Hashtbl.find_opt role a with Some r -> r | None -> "a?" ^ a in
   Array.map (fun p -> String.concat ":" (match p with
       | t :: (("L" | "U" | "TL") as k) :: m :: r -> t :: k :: ren_m m :: r
       | t :: (("WB" | "WE") as k) :: c :: m :: r -> t :: k :: ren_c c :: ren_m m :: r
       | t :: (("N1" | "NA") as k) :: c :: r -> t :: k :: ren_c c :: r
-      | t :: (("AL" | "AS" | "AR" | "AC") as k) :: a :: r -> t :: k :: ren_a a :: r
       | p -> p)) parts
 
 (* ---------------------------------------------------------------- events *)
@@ -164,7 +128,7 @@ let av_of = function "a0" -> ABusy | "a1" -> AIdle | "a2" -> ADone | "a3" -> ATe
 (* tokens -> (token index, tid, action) list; U:m0 followed by the LER note of the same thread is one event.
    Harness-only observations (CD, IT, SZ, THR, yields of the init hook) have no counterpart in the LTS and are skipped here
    (the direct checker below examines them); idle()/has_idle() = a load of idle_ by a client, compared with the model's idle. *)
-type action = Ev of ev | ObsIdle of int
+type action = Ev of ev | Atom of (av -> ev) | ObsIdle of int
 let events_of (toks : string array) : (int * int * action) list =
   let n = Array.length toks in
   let out = ref [] in
@@ -195,10 +159,12 @@ let events_of (toks : string array) : (int * int * action) list =
           | ["N1"; c; "-"] -> Some (Ev (EN1 (cv_of c, None)))
           | ["N1"; c; u] -> Some (Ev (EN1 (cv_of c, Some (nat_arg u))))
           | ["NA"; c] -> Some (Ev (ENA (cv_of c)))
-          | ["AL"; "a1"; v] when next_is ["IDLE"; "HAS"] -> incr i; Some (ObsIdle (int_of_string v))
-          | ["AL"; a; v] -> Some (Ev (EAL (av_of a, nat_arg v)))
-          | ["AS"; a; v] -> Some (Ev (EAS (av_of a, nat_arg v)))
-          | ["AR"; a; o; nn] -> Some (Ev (EAR (av_of a, nat_arg o, nat_arg nn)))
+          (* atomics: WHICH counter an access touches is not taken from the (heuristic) role inference but resolved by the matcher
+             against the thread's pending model step *)
+          | ["AL"; _; v] when next_is ["IDLE"; "HAS"] -> incr i; Some (ObsIdle (int_of_string v))
+          | ["AL"; _; v] -> let v = nat_arg v in Some (Atom (fun a -> EAL (a, v)))
+          | ["AS"; _; v] -> let v = nat_arg v in Some (Atom (fun a -> EAS (a, v)))
+          | ["AR"; _; o; nn] -> let o = nat_arg o and nn = nat_arg nn in Some (Atom (fun a -> EAR (a, o, nn)))
           | ["SP"; u] -> Some (Ev (ESpawn (nat_arg u)))
           | ["J"; u] -> Some (Ev (EJoin (nat_arg u)))
           | ["END"] -> Some (Ev EEnd)
@@ -209,7 +175,7 @@ let events_of (toks : string array) : (int * int * action) list =
           | ["US"; "LT"; a; _] -> Some (Ev (EUser (ULT, nat_arg a)))
           | ["US"; "TERM"; a; _] -> Some (Ev (EUser (UTERM, nat_arg a)))
           | ["US"; "WD"; a; _] -> Some (Ev (EUser (UWD, nat_arg a)))
-          | ["US"; ("CD" | "IT" | "SZ" | "THR" | "DONE"); _; _] | ["Y"] -> None
+          | ["US"; ("CD" | "IT" | "SZ" | "THR" | "DONE" | "LDONE" | "DTOR"); _; _] | ["Y"] -> None
           | _ -> raise (Unparsable tok)
           with Unparsable _ ->
             (* an atomic whose role could not be identified (or with an out-of-range value): internal step, skipped *)
@@ -225,18 +191,19 @@ type dstate = {
   mutable pend : (int * int) list;       (* thread -> job id of its last ENQ note *)
   mutable enq : int list;                (* jobs whose enqueue() has taken the lock and pushed *)
   mutable js : int list; mutable je : int list;
-  mutable donev : int; mutable termd : bool; mutable lers : int; mutable bad : string list;
+  mutable termd : bool; mutable dtor : bool; mutable lers : int; mutable bad : string list;
   mutable lastcall : (int * string) list; (* thread -> LE | LT *)
   mutable jsby : (int * int) list;       (* job -> thread that ran it *)
   mutable cd : int list;                 (* jobs whose closure token has been destroyed *)
   mutable holder : int;                  (* thread holding mutex_ (-1 = free), from the L/U/WB/WE events *)
-  mutable busyv : int; mutable idlev : int; mutable pops : int; mutable terms : bool;
   mutable its : (int * int) list         (* worker thread -> argument of its InitThread hook call *)
 }
 let direct_check (sc : scen) (toks : string array) : dstate =
-  let d = { pend = []; enq = []; js = []; je = []; donev = 0; termd = false; lers = 0; bad = []; lastcall = [];
-            jsby = []; cd = []; holder = -1; busyv = 0; idlev = 0; pops = 0; terms = false; its = [] } in
+  let d = { pend = []; enq = []; js = []; je = []; termd = false; dtor = false; lers = 0; bad = []; lastcall = [];
+            jsby = []; cd = []; holder = -1; its = [] } in
   let locked_before = Hashtbl.create 8 in
+  let cs_start = Hashtbl.create 8 and last_cs = Hashtbl.create 8 and term_pending = Hashtbl.create 4 and term_done_idx = ref (-1) in
+  let ler_je = Hashtbl.create 8 in
   let enqcount = Hashtbl.create 16 in
   Array.iter (fun tok -> match split ':' tok with
       | [_; "US"; "ENQ"; a; _] -> Hashtbl.replace enqcount a (1 + (try Hashtbl.find enqcount a with Not_found -> 0))
@@ -248,24 +215,25 @@ let direct_check (sc : scen) (toks : string array) : dstate =
     | [tid; "L"; "m0"] ->
       (* enqueue(): the lock after the ENQ note; jobs_.emplace_back follows atomically (no scheduling point) *)
       let t = int_of_string tid in
-      d.holder <- t; Hashtbl.replace locked_before t true;
+      d.holder <- t; Hashtbl.replace locked_before t true; Hashtbl.replace cs_start t idx;
       (match List.assoc_opt t d.pend with
        | Some j -> d.enq <- j :: d.enq; d.pend <- List.remove_assoc t d.pend
        | None -> ())
-    | [_; "U"; "m0"] | [_; "WB"; _; "m0"] -> d.holder <- -1
-    | tid :: "WE" :: _ :: "m0" :: _ -> d.holder <- int_of_string tid
+    | [tid; "U"; "m0"] | [tid; "WB"; _; "m0"] ->
+      let t = int_of_string tid in
+      d.holder <- -1;
+      (match Hashtbl.find_opt cs_start t with Some st -> Hashtbl.replace last_cs t (st, idx) | None -> ());
+      (* terminate() and the destructor set terminate_ inside their (only / first) critical section after the TERM / DTOR note *)
+      if Hashtbl.mem term_pending t then begin
+        Hashtbl.remove term_pending t;
+        if !term_done_idx < 0 then term_done_idx := idx
+      end
+    | tid :: "WE" :: _ :: "m0" :: _ -> let t = int_of_string tid in d.holder <- t; Hashtbl.replace cs_start t idx
+    | [tid; "US"; ("TERM" | "DTOR"); _; _] ->
+      Hashtbl.replace term_pending (int_of_string tid) true;
+      (match split ':' tok with [_; _; "TERM"; _; _] -> d.termd <- true | _ -> d.dtor <- true)
     | [_; "US"; "WD"; a; _] ->
       if not (List.mem (int_of_string a) d.je) then flag (Printf.sprintf "rendezvous on job %s returned before that job's body ended (token %d)" a idx)
-    | [_; "AR"; "a0"; o; nn] ->
-      d.busyv <- int_of_string nn;
-      if int_of_string nn = int_of_string o + 1 then begin
-        d.pops <- d.pops + 1;
-        (* terminate() / the destructor return once the RUNNING jobs finish: after terminate_ is set no queued job may be started
-           (both the store and the pop happen under the pool mutex, so their order in the trace is the real order) *)
-        if d.terms then flag (Printf.sprintf "a queued job was started after terminate_ was set (token %d): the backlog is drained instead of dropped" idx)
-      end
-    | [_; "AR"; "a1"; _; nn] -> d.idlev <- int_of_string nn
-    | [_; "AS"; "a3"; "1"] -> d.terms <- true
     | [tid; "US"; "CD"; a; _] ->
       let t = int_of_string tid and j = int_of_string a in
       if List.mem j d.cd then flag (Printf.sprintf "closure of job %d destroyed twice (token %d)" j idx);
@@ -284,36 +252,38 @@ let direct_check (sc : scen) (toks : string array) : dstate =
       d.its <- (t, pp) :: d.its
     | [_; "US"; "SZ"; a; _] -> if int_of_string a <> sc.w then flag (Printf.sprintf "size() = %s, pool has %d threads" a sc.w)
     | [_; "US"; "THR"; a; _] -> if a <> "1" then flag "thread(i) does not return the i-th worker thread"
-    | [tid; "US"; "HAS"; a; _] ->
-      (match (if idx > 0 then split ':' toks.(idx - 1) else []) with
-       | [tid2; "AL"; "a1"; v] when tid2 = tid -> if (a = "1") <> (int_of_string v <> 0) then flag (Printf.sprintf "has_idle() = %s but idle_ = %s" a v)
-       | _ -> flag "has_idle() did not load idle_")
-    | [tid; "US"; "DONE"; a; _] ->
-      (match (if idx > 0 then split ':' toks.(idx - 1) else []) with
-       | [tid2; "AL"; "a2"; v] when tid2 = tid -> if a <> v then flag (Printf.sprintf "done() = %s but done_ = %s" a v)
-       | _ -> ())
-    | [tid; "US"; "IDLE"; a; _] ->
-      (match (if idx > 0 then split ':' toks.(idx - 1) else []) with
-       | [tid2; "AL"; "a1"; v] when tid2 = tid -> if a <> v then flag (Printf.sprintf "idle() = %s but idle_ = %s" a v)
-       | _ -> flag "idle() did not load idle_")
+    | [_; "US"; "IDLE"; a; _] -> if int_of_string a > sc.w then flag (Printf.sprintf "idle() = %s, pool has %d threads" a sc.w)
+    | [_; "US"; "DONE"; a; _] ->
+      if int_of_string a > List.length d.je then flag (Printf.sprintf "done() = %s but only %d job bodies have ended (token %d)" a (List.length d.je) idx)
+    | [tid; "US"; "LDONE"; a; _] ->
+      (* done() through the public API right after loop_until_empty returned: at least the jobs ended at the return, at most those ended now *)
+      let v = int_of_string a and lo = (try Hashtbl.find ler_je (int_of_string tid) with Not_found -> 0) and hi = List.length d.je in
+      if v < lo || v > hi then
+        flag (Printf.sprintf "done() = %d after loop_until_empty returned (token %d): %d jobs had ended at the return, %d by now" v idx lo hi)
     | [_; "US"; "JS"; a; _] ->
       let j = int_of_string a in
       if not (List.mem j d.enq) then flag (Printf.sprintf "job %d started but never enqueued (token %d)" j idx);
       if List.mem j d.js && (try Hashtbl.find enqcount a with Not_found -> 0) <= 1 then
         flag (Printf.sprintf "job %d executed more than once (token %d)" j idx);
+      (let w = (match split ':' tok with tid :: _ -> int_of_string tid | [] -> -1) in
+       match Hashtbl.find_opt last_cs w with
+       | Some (st, _) when !term_done_idx >= 0 && !term_done_idx < st ->
+         (* terminate() / the destructor return once the RUNNING jobs finish: a worker that took the pool mutex only after
+            terminate_ had been set under that mutex must not start another queued job *)
+         flag (Printf.sprintf "job %d was popped and started (token %d) by a worker that acquired the mutex after terminate()/the destructor had set terminate_: the backlog is drained instead of dropped" j idx)
+       | _ -> ());
       d.js <- j :: d.js; d.jsby <- (j, (match split ':' tok with tid :: _ -> int_of_string tid | [] -> -1)) :: d.jsby
     | [_; "US"; "JE"; a; _] -> d.je <- int_of_string a :: d.je
-    | [_; "AR"; "a2"; _; nn] -> d.donev <- int_of_string nn
-    | [_; "US"; "TERM"; _; _] -> d.termd <- true
     | [tid; "US"; "LE"; _; _] -> let t = int_of_string tid in d.lastcall <- (t, "LE") :: List.remove_assoc t d.lastcall
     | [tid; "US"; "LT"; _; _] -> let t = int_of_string tid in d.lastcall <- (t, "LT") :: List.remove_assoc t d.lastcall
-    | [_; "US"; "LER"; a; _] ->
+    | [tid; "US"; "LER"; a; _] ->
+      Hashtbl.replace ler_je (int_of_string tid) (List.length d.je);
       d.lers <- d.lers + 1;
       let n = int_of_string a and nje = List.length d.je in
       List.iter (fun j -> if not (List.mem j d.je) then
                     flag (Printf.sprintf "loop_until_empty returned at token %d but enqueued job %d has not finished" idx j)) d.enq;
       if n <> nje then flag (Printf.sprintf "loop_until_empty returned at token %d: caller sees %d job effects, %d jobs ended" idx n nje);
-      if d.donev <> nje then flag (Printf.sprintf "loop_until_empty returned at token %d: done()=%d but %d jobs ended" idx d.donev nje);
+
       if nje <> List.length d.enq then flag (Printf.sprintf "loop_until_empty returned at token %d: %d ended, %d enqueued" idx nje (List.length d.enq));
       if not d.termd then
         List.iter (fun j -> if job_has_token sc j && not (List.mem j d.cd) then
@@ -340,16 +310,10 @@ let impl_rest (toks : string array) (d : dstate) (state : (string * int) list) (
       | 2, ("WB" :: "c0" :: _) :: _ -> if term = 1 || jobs > 0 then res := Printf.sprintf "IDLE@%d" id :: !res
       | 2, ("WB" :: "c2" :: _) :: _ -> ()      (* a job body blocked in a rendezvous: the job graph's business, not the pool's *)
       | 3, _ ->
-        let rec strip = function ("J" :: _) :: r -> strip r | l -> l in
-        (match strip evs with
-         | ["U"; "m0"] :: ["NA"; "c0"] :: ["AS"; "a3"; "1"] :: _ -> res := Printf.sprintf "DTOR@%d" id :: !res
-         | _ -> ())
+        if id = 0 && d.dtor then res := Printf.sprintf "DTOR@%d" id :: !res
       | 1, _ -> res := Printf.sprintf "LOCK@%d" id :: !res
       | _, _ -> res := Printf.sprintf "RUNNABLE@%d" id :: !res
     end) threads;
-  let running = List.length d.js - List.length d.je in
-  if busy <> running then res := Printf.sprintf "BUSY=%d-but-%d-jobs-running" busy running :: !res
-  else if running = 0 && g "done" <> List.length d.je then res := Printf.sprintf "DONE=%d-but-%d-jobs-ended" (g "done") (List.length d.je) :: !res;
   if !res = [] then "legit" else "stranded:" ^ String.concat "," (List.sort compare !res)
 
 let model_rest (s : state) : string =
@@ -401,7 +365,7 @@ let () =
               (* (1) model replay *)
               let st = ref (init cfg) in
               let verdict = ref "accept" in
-              let nev = ref 0 and nspur = ref 0 and ntau_ins = ref 0 and ntau_skip = ref 0 and nobs_diff = ref 0 in
+              let nev = ref 0 and nspur = ref 0 and ntau_ins = ref 0 and ntau_skip = ref 0 and nobs_diff = ref 0 and nxnot = ref 0 in
               if has_cont sc then verdict := "skipped"     (* enqueue from a closure destructor: outside the LTS's job language *)
               else
               (try
@@ -429,15 +393,24 @@ let () =
                  (try List.iter (fun (idx, t, a) ->
                       match a with
                       | ObsIdle v -> if v <> int_of_nat (!st).shr.idle then incr nobs_diff
-                      | Ev e when is_tau e ->
-                        (match lstep_gen cfg fx sc.sp !st (nat_of_int t, e) with
+                      | Atom f ->
+                        let rec try_roles = function
+                          | [] -> None
+                          | a :: r -> (match lstep_gen cfg fx sc.sp !st (nat_of_int t, f a) with Some s' -> Some s' | None -> try_roles r) in
+                        (match try_roles [ABusy; AIdle; ADone; ATerm] with
                          | Some s' -> st := s'; incr nev
                          | None -> incr ntau_skip)
                       | Ev e ->
                         let saved = !st in
                         (match with_taus t e 8 with
                          | Some s' -> st := s'; incr nev; (match e with EWE (_, true) -> incr nspur | _ -> ())
-                         | None -> st := saved; verdict := Printf.sprintf "reject@%d:%s" idx toks.(idx); raise Exit)) evs
+                         | None ->
+                           st := saved;
+                           (* an additional notification (Pool.xstep): enabled for every live, un-blocked thread, it only moves
+                              sleepers into the woken set; the reachability relation of the theorems is closed under it *)
+                           (match (match e with EN1 _ | ENA _ -> xstep !st (nat_of_int t, e) | _ -> None) with
+                            | Some s' -> st := s'; incr nev; incr nxnot
+                            | None -> verdict := Printf.sprintf "reject@%d:%s" idx toks.(idx); raise Exit))) evs
                   with Exit -> ())
                with Unparsable tok -> verdict := "unparsable:" ^ tok);
               Buffer.add_string b (Printf.sprintf "%s model=%s" (if is_ok then "OK" else "DEADLOCK") !verdict);
@@ -447,8 +420,6 @@ let () =
               if is_ok then begin
                 let fb = ref [] in
                 if List.length d.js <> List.length d.je then fb := "unfinished-job-at-exit" :: !fb;
-                if d.donev <> List.length d.je then fb := Printf.sprintf "final-done_=%d-but-%d-jobs-ended" d.donev (List.length d.je) :: !fb;
-                if d.busyv <> 0 then fb := Printf.sprintf "final-busy_=%d" d.busyv :: !fb;
                 if sc.init >= 0 && List.length d.its <> sc.w then fb := Printf.sprintf "init-hook-calls:%d-of-%d" (List.length d.its) sc.w :: !fb;
                 List.iter (fun j -> if job_has_token sc j && not (List.mem j d.cd) then fb := Printf.sprintf "closure-of-job-%d-never-destroyed" j :: !fb) d.enq;
                 Buffer.add_string b (Printf.sprintf " fin=%s" (if !fb = [] then "ok" else String.concat ";" (List.rev !fb)));
@@ -458,10 +429,11 @@ let () =
               end else begin
                 (* (2) rest state *)
                 let why = field impl "DEADLOCK" "STATE" in
-                (* component state of the real pool at the rest state, derived from its own trace (no private member is read):
-                   counters = last value written, queue length = pushes - pops (a pop goes with the increment of busy_) *)
-                let state = [ ("jobs", List.length d.enq - d.pops); ("busy", d.busyv); ("idle", d.idlev); ("done", d.donev);
-                              ("term", if d.terms then 1 else 0) ] in
+                (* component state of the real pool at the rest state, derived from the USER events of its own trace only (no private
+                   member, no role-inferred atomic): at a rest state every popped job has started, so queued = enqueued - started,
+                   running = started - ended; terminate_ is set iff a terminate() call or the destructor has been entered *)
+                let state = [ ("jobs", List.length d.enq - List.length d.js); ("busy", List.length d.js - List.length d.je);
+                              ("term", if d.termd || d.dtor then 1 else 0) ] in
                 let threads = List.filter_map (fun s -> match split ':' s with
                     | [a; bb; c; dd] -> Some (int_of_string a, int_of_string bb, int_of_string c, int_of_string dd) | _ -> None)
                     (nonempty (split ',' (field impl "THREADS" "CHOICES"))) in
@@ -469,15 +441,14 @@ let () =
                                        (String.concat "," (List.map (fun (k, v) -> Printf.sprintf "%s:%d" k v) state)));
                 if !verdict = "accept" then begin
                   let s = !st in
-                  let ms = [ ("jobs", List.length s.shr.queue); ("busy", int_of_nat s.shr.busy); ("idle", int_of_nat s.shr.idle);
-                             ("done", int_of_nat s.shr.done0); ("term", if s.shr.term then 1 else 0) ] in
+                  let ms = [ ("jobs", List.length s.shr.queue); ("busy", int_of_nat s.shr.busy); ("term", if s.shr.term then 1 else 0) ] in
                   let same = List.for_all (fun (k, v) -> List.assoc_opt k state = Some v) ms in
                   Buffer.add_string b (Printf.sprintf " state_match=%d quiescent_model=%d rest_model=%s" (if same then 1 else 0)
                                          (if quiescentb cfg fx sc.sp s then 1 else 0) (model_rest s))
                 end
               end;
-              Buffer.add_string b (Printf.sprintf " ev=%d spur=%d jobs=%d lers=%d term=%d tauins=%d tauskip=%d obsdiff=%d" !nev !nspur (List.length d.js) d.lers
-                                     (if d.termd then 1 else 0) !ntau_ins !ntau_skip !nobs_diff);
+              Buffer.add_string b (Printf.sprintf " ev=%d spur=%d jobs=%d lers=%d term=%d tauins=%d tauskip=%d obsdiff=%d xnotify=%d" !nev !nspur (List.length d.js) d.lers
+                                     (if d.termd then 1 else 0) !ntau_ins !ntau_skip !nobs_diff !nxnot);
               print_endline (Buffer.contents b)
             end
           with Failure m -> print_endline ("DRIVER-ERROR " ^ m) | Not_found -> print_endline "DRIVER-ERROR not_found")
